@@ -109,12 +109,44 @@ def check_rows(case0, cfg, sh, problem, dd, samples, theta_ref, X, mll_impl, mll
         part.outcomes.add(core.okey((round(float(rhs), 5),)))
 
 
+def check_curves_only(case0, cfg, sh, problem, dd, samples, theta_ref, X, part):
+    """get_orbit(i).radial_velocity(t) (+offsets) must still be M(theta) x for the ORIGINAL (theta, x) of each row"""
+    import astropy.units as u
+    from astropy.time import Time
+
+    no = cfg["n_offsets"]
+    tt = Time(dd["t"], format="mjd", scale="tcb")
+    dunit = u.km / u.s if sh["unit"] == "km/s" else u.m / u.s
+    Mref = problem.M(theta_ref)
+    for i in range(len(theta_ref)):
+        x = X[i]
+        want = Mref[i] @ x
+        rv = samples.get_orbit(i).radial_velocity(tt).to_value(dunit)
+        off = np.zeros(len(dd["t"]))
+        for k in range(1, no + 1):
+            off = off + (dd["labels"] == k) * x[1 + k]
+        part.evals += 1
+        if np.max(np.abs(rv + off - want)) > 1e-8 * (np.abs(x[0]) + np.max(np.abs(want)) + 1e-12):
+            part.violation(dict(case0, theta=theta_ref[i].tolist(), x=x.tolist()),
+                           "after wrap_K() on an object whose orbits had been built, get_orbit(i) no longer gives the row's RV curve", expected=want, observed=rv + off)
+            return
+        ds = data_star(dd, dd["labels"], x, no, sh["unit"], dd["t_ref"])
+        lnp = float(samples[i : i + 1].ln_unmarginalized_likelihood(ds)[0])
+        var = (dd["sig"] * dd["factor"]) ** 2 + theta_ref[i, 4] ** 2
+        y = dd["y"] * dd["factor"]  # `want` = M(theta) x already contains the row's survey offsets
+        want_lnp = float(np.sum(-0.5 * (np.log(2 * np.pi * var) + (y - want) ** 2 / var)))
+        if abs(lnp - want_lnp) > 1e-7 * (1 + abs(want_lnp)):
+            part.violation(dict(case0, theta=theta_ref[i].tolist(), x=x.tolist()),
+                           "ln_unmarginalized_likelihood after wrap_K() is not ln N(y | M(theta) x, sigma^2 + s^2)", expected=want_lnp, observed=lnp)
+            return
+
+
 def check_cell(cfg, sh, seed, part, prior, dec, scratch):
     import astropy.units as u
     import thejoker as tj
 
     data, dd = pb.make_data(n=sh["n"], layout=sh["layout"], err=sh["err"], unit=sh["unit"], t_ref=(pb.T0 - 3.25) if sh["tref"] and cfg["n_offsets"] == 0 else None,
-                            seed=seed, n_surveys=cfg["n_offsets"] + 1)
+                            seed=seed, n_surveys=cfg["n_offsets"] + 1, t_ref_scale=("utc" if sh["n"] % 2 else "tcb"))
     problem = pb.ref_problem(dd, dec)
     theta = theta_rows(seed, float(np.mean(dd["sig"])))
     th_ref = theta.copy()
@@ -175,6 +207,12 @@ def check_cell(cfg, sh, seed, part, prior, dec, scratch):
         for c, nm in enumerate(names):
             hb[nm] = X[:, c] * (dunit / u.day ** (int(nm[1:]) if nm.startswith("v") else 0))
         check_rows(dict(case0, rows=f"hand-built-{variant}"), cfg, sh, problem, dd, hb, th_ref, X, mll_all, verd_all, exact_all, part)
+        if variant == 1:
+            # the SAME object (its orbits were just built) after wrap_K(): every row still denotes the same curve
+            hb.wrap_K()
+            X2 = X.copy()
+            X2[:, 0] = np.abs(X2[:, 0])
+            check_curves_only(dict(case0, rows="hand-built-1-after-wrap_K"), cfg, sh, problem, dd, hb, th_ref, X, part)
     if len(part.samples) < 2:
         part.samples.append(core.jsonable(dict(case0, n_theta=len(theta))))
 
